@@ -91,6 +91,17 @@ def load(reg):
                              ("self.g_p4", "old(self.g_p4) + val(num(value)) ** 4")],
                  props=C09)
 
+    # bounded stand-in (labelled BOUNDED, never counted as proved): floats are idealised as reals, so a guard such as
+    # "alpha > 0 implies 1 - alpha/2 < 1" is true in the model and false in float arithmetic; the native sweep calls
+    # every query on short histories with rounding-sensitive arguments
+    def totality_sweep(table):
+        from pyvc.ground import run_native
+        res = run_native({"function": "Tally.confidence_interval", "obligation": "bounded-sweep", "property": "C09"})
+        return [("BOUNDED: every query of Tally / EventBasedTally / Counter on histories of length 0..6 (equal values, extreme "
+                 "magnitudes), both bias flags, confidence levels incl. 0, 5e-324, 2^-53, 1-2^-53, 1: a number or NaN, never an "
+                 "exception", not res.get("reproduced"), res.get("observed") or res.get("note"))]
+    reg.ground_obligation("BOUNDED stand-in: native totality sweep of the statistics queries (float rounding)", C09, totality_sweep)
+
     reg.contract("Tally.n", params={}, returns="int", requires=["TI(self)"],
                  ensures=["result == self._n"], pure=True, props=C09)
     reg.contract("Tally.sum", params={}, returns="real", requires=["TI(self)"],
